@@ -599,10 +599,13 @@ class Tdf:
     def __eq__(self, o: object) -> bool:
         if not isinstance(o, Tdf):
             return False
+        # reading the blocks opens the files if needed, which is also what
+        # loads version and nEntries of objects that were never opened
+        self_blocks, o_blocks = self.blocks, o.blocks
         return (
             self.version == o.version
             and self.nEntries == o.nEntries
-            and self.blocks == o.blocks
+            and self_blocks == o_blocks
         )
 
     def copy(self, new_filename: Union[Path, str]) -> "Tdf":
